@@ -18,7 +18,7 @@ RULE = ("generated strongly connected street graphs (4-14 nodes on a jittered gr
         "first link starts at o's cell on o's link, last link ends at d's cell on d's link, consecutive links join end to start, every link id "
         "resolves, every inner link is a graph edge; position_from_geoid(cell) names an existing link and a cell on that link's h3 line. "
         "non-trivial = pair needing >= 1 inner link, or same link in 'backwards' order (needs a loop), or opposite directions; distinct = sha1(case)")
-ASSUMPTIONS = ["street graphs are strongly connected, node ids are ints and there are no parallel edges (the link table keeps one link per ordered node pair), as OSMRoadNetwork requires",
+ASSUMPTIONS = ["street graphs are strongly connected and node ids are ints, as OSMRoadNetwork requires; a third of the generated graphs have parallel edges between one junction pair (the link table keeps one link per ordered node pair)",
                "the OSM loader workaround (node_link_graph(edges='links')) is used because OSMRoadNetwork.from_file cannot read the shipped JSON under the installed networkx",
                "PYTHONHASHSEED pinned to 0"]
 FLOORS = {"quick": {"pairs": 2000, "flag:inner_links": 350, "flag:same_link_backwards": 50, "flag:opposite_directions": 20, "flag:off_grid_line_interior": 30}, "thorough": {"pairs": 100000}}
@@ -27,7 +27,7 @@ FLOORS = {"quick": {"pairs": 2000, "flag:inner_links": 350, "flag:same_link_back
 @st.composite
 def st_case(draw) -> Dict[str, Any]:
     net = draw(st.sampled_from(["gen", "gen", "gen", "denver", "hav"]))
-    g = draw(graphs.st_graph(4, 14, arbitrary_lengths=draw(st.booleans()), scales=(1, 1, 1, 3))) if net == "gen" else None
+    g = draw(graphs.st_graph(4, 14, arbitrary_lengths=draw(st.booleans()), scales=(1, 1, 1, 3), parallel=draw(st.sampled_from([False, False, True])))) if net == "gen" else None
     if net == "hav":
         cell = st.tuples(st.just("cell"), st.integers(0, 300), st.integers(0, 300)).map(lambda t: ["cell", round(graphs.LAT0 + t[1] * 0.00008, 6), round(graphs.LON0 + t[2] * 0.00008, 6)])
         pairs = draw(st.lists(st.tuples(cell, cell).map(list), min_size=1, max_size=8))
@@ -43,7 +43,7 @@ def st_case(draw) -> Dict[str, Any]:
                 pairs.append([draw(pos), draw(pos)])
     # the location resolution is configuration (sim_h3_resolution, default 15): coarser grids put the two ends of short
     # links into one cell
-    return {"net": net, "graph": g, "pairs": pairs, "res": draw(st.sampled_from([15, 15, 15, 13, 12])) if net != "hav" else 15}
+    return {"net": net, "graph": g, "pairs": pairs, "res": draw(st.sampled_from([15, 15, 15, 13, 12, 10, 9])) if net != "hav" else 15}
 
 
 def network_for(case):
@@ -92,8 +92,14 @@ def check_case(case: Dict[str, Any]) -> Tuple[List[Violation], Set[str], Dict[st
     osm = case["net"] != "hav"
     edges = set(rn.graph.edges()) if osm else None
     for pi, (os_, ds_) in enumerate(case["pairs"]):
-        o, d = resolve_pair(rn, case, os_, ds_)
+        try:
+            o, d = resolve_pair(rn, case, os_, ds_)
+        except AttributeError:
+            o = d = None  # a snapped position was None and the second position is defined relative to it
         stats["pairs"] += 1
+        if o is None or d is None:
+            out.append(Violation(PROP, "snapping a location returned no position", {"pair": pi, "origin_spec": os_, "destination_spec": ds_}))
+            break
 
         def bad(key, **detail):
             out.append(Violation(PROP, key, dict(detail, pair=pi, origin=list(o), destination=list(d))))
